@@ -34,6 +34,7 @@ from bitcoinlib.services.services import Service
 from bitcoinlib.transactions import Input, Output, Transaction, get_unlocking_script_type, TransactionError
 from bitcoinlib.scripts import Script
 from sqlalchemy import func, or_
+from sqlalchemy.orm.attributes import set_committed_value
 
 _logger = logging.getLogger(__name__)
 
@@ -3101,6 +3102,11 @@ class Wallet(object):
                 self._key_objects[kb['id']]._balance = kb['balance']
         self.session.bulk_update_mappings(DbKey, key_balance_list)
         self._commit()
+        # Bulk update bypasses DbKey objects already loaded in this session, refresh their balance attribute
+        key_balances = {kb['id']: kb['balance'] for kb in key_balance_list}
+        for dbkey in list(self.session.identity_map.values()):
+            if isinstance(dbkey, DbKey) and dbkey.id in key_balances:
+                set_committed_value(dbkey, 'balance', key_balances[dbkey.id])
         _logger.info("Got balance for %d key(s)" % len(key_balance_list))
         return self._balances
 
